@@ -302,9 +302,24 @@ def list_method(I, o, name):
         o.items.reverse()
 
     def sort(I_, a, k):
-        if any(is_sym(x) for x in o.items) or k:
-            raise OutOfSubset('sort of symbolic list')
-        o.items.sort()
+        if k:
+            raise OutOfSubset('sort with key/reverse')
+        if not any(is_sym(x) for x in o.items):
+            try:
+                o.items.sort()
+            except TypeError as e:
+                I.raise_py('TypeError', str(e))
+            return
+        if not all(is_intlike(x) for x in o.items) or len(o.items) > 6:
+            raise OutOfSubset('sort of symbolic list (only short int lists are modelled)')
+        # compare-exchange network (bubble sort); values are merged with ite, no forking
+        its = [zterm(x) for x in o.items]
+        n = len(its)
+        for i in range(n):
+            for j in range(n - 1 - i):
+                x, y = its[j], its[j + 1]
+                its[j], its[j + 1] = z3.If(x <= y, x, y), z3.If(x <= y, y, x)
+        o.items[:] = [mk_int(t) for t in its]
 
     def decode(I_, a, k):
         return M.bytes_decode(I, o, a[0] if a else k.get('encoding', 'utf-8'))
